@@ -96,7 +96,8 @@ def run(ck):
                 cur = f.blocks[nx[0]]
                 hops += 1
             t = cur.term or {}
-            tested = t.get("k") == "if" and t.get("neg") and ((t.get("core") or {}).get("v") == "os" or (t.get("core") or {}).get("root") == "os")
+            streams = {d_["var"] for d_ in f.events("decl") if "ostream" in (d_.get("type") or "")}
+            tested = t.get("k") == "if" and t.get("neg") and ((t.get("core") or {}).get("v") in streams or (t.get("core") or {}).get("root") in streams)
             # nothing else is written between W and the test
             between = [x for x in blk.elems[e.idx + 1:] if comp_of(x) and x is not e] if cur is blk else []
             okf = tested and not between
@@ -139,9 +140,12 @@ def run(ck):
     ck.ob("C05-R2", "serveFile/content-length==file-size", ok, cl[0].loc if cl else g.loc, g, "Content-Length is the fstat() size of the file that is sent")
     wr = lib.single(prog, H + "Experimental::(anonymous namespace)::writeRequest")
     cl = [e for e in wr.calls(lambda e: strip_tmpl(e.get("callee") or "").endswith("::writeHeader") and "ContentLength" in (e.get("t") or ""))]
-    bodyw = [e for e in wr.events("call") if e.get("op") == "<<" and any(a.get("v") == "body" for a in e.get("args", []))]
-    tests = [b for b in wr.blocks.values() if b.term and b.term.get("k") == "if" and (b.term.get("core") or {}).get("root") == "body" and "empty" in (b.term.get("cond") or "") and b.term.get("neg")]
-    ok = len(cl) == 1 and len(bodyw) == 1 and "body.size()" in (cl[0].get("t") or "") and len(tests) == 2 and \
+    bvars = {d_["var"] for d_ in wr.events("decl") if d_.get("icall") == "Pistache::Http::Message::body" or ((d_.get("init") or {}).get("t") or "").endswith(".body()")}
+    ck.require(len(bvars) == 1, "local bound to request.body() not found in writeRequest")
+    BV = next(iter(bvars))
+    bodyw = [e for e in wr.events("call") if e.get("op") == "<<" and any(a.get("v") == BV for a in e.get("args", []))]
+    tests = [b for b in wr.blocks.values() if b.term and b.term.get("k") == "if" and (b.term.get("core") or {}).get("root") == BV and "empty" in (b.term.get("cond") or "") and b.term.get("neg")]
+    ok = len(cl) == 1 and len(bodyw) == 1 and (BV + ".size()") in (cl[0].get("t") or "") and len(tests) == 2 and \
         any(cfg.edge_dominates(wr, b.id, 0, cl[0]) for b in tests) and any(cfg.edge_dominates(wr, b.id, 0, bodyw[0]) for b in tests)
     ck.ob("C05-R2", "client-writeRequest/content-length==body", ok, wr.loc, wr, "Content-Length: body.size() and `<< body`, both under !body.empty()")
 
@@ -194,7 +198,7 @@ def run(ck):
     zero = [e for e in en.events("call") if e.get("op") == "<<" and any(a.get("const") == "s:0" for a in e.get("args", []))]
     crlfs = [e for e in en.events("call") if e.get("op") == "<<" and any((a.get("t") or "").endswith("crlf") for a in e.get("args", []))]
     fl = [e for e in en.calls(lambda e: (e.get("callee") or "") == RS + "flush")]
-    tst = [b for b in en.blocks.values() if b.term and b.term.get("k") == "if" and b.term.get("neg") and (b.term.get("core") or {}).get("v") == "os"]
+    tst = [b for b in en.blocks.values() if b.term and b.term.get("k") == "if" and b.term.get("neg") and (b.term.get("core") or {}).get("v") in {d_["var"] for d_ in en.events("decl") if "ostream" in (d_.get("type") or "")}]
     ok = len(zero) == 1 and len(crlfs) == 2 and len(fl) == 1 and len(tst) == 1 and cfg.ev_dominates(d, zero[0], crlfs[0]) and \
         all(cfg.ev_dominates(d, c, fl[0]) for c in crlfs) and cfg.edge_dominates(en, tst[0].id, 1, fl[0])
     ck.ob("C05-R3", "ResponseStream::ends/terminator", ok, en.loc, en, "\"0\" CRLF CRLF, `if (!os) throw`, then flush()")
